@@ -6,7 +6,7 @@ from typing import Any, Iterable, List, Optional
 from ..engine.flow import Automaton, MayRaise, Runner, State, violation
 from ..engine.match import Spec, loop_doms, require_return, residual
 from ..engine.report import Check
-from ..engine.terms import C, Term, lin_add, lin_parts, mentions, show, subterms
+from ..engine.terms import C, Term, conjuncts, lin_add, lin_parts, mentions, mk_cmpz, show, subterms
 from ..engine.walker import MUTATORS, Event
 from .common import short
 
@@ -124,7 +124,7 @@ def r14_2_3(ck: Check) -> None:
         return
     ret = rets[0]
     # collected value at the return: some loop-carried accumulator + U[r].value
-    enough = [c.term for c in ret.pc if c.prov == "branch" and c.term[0] == "cmpz" and c.term[1] in (">=", "<=")]
+    enough = [x for c in ret.pc if c.prov in ("branch", "cont-surv") for x in conjuncts(c.term) if x[0] == "cmpz" and x[1] in (">=", "<=")]
     construct = "create_spend_transaction: returns only when collected >= value + fee, collected = running sum of U[r].value over the inputs taken"
     col = None
     for c in enough:
@@ -132,7 +132,7 @@ def r14_2_3(ck: Check) -> None:
         lv = [a for a in atoms if a[0] == "lv"]
         if len(lv) == 1 and k == 0:
             want = lin_add(lin_add(lin_add(lv[0], ("a", ("s", U, r), "value")), sp.term("value"), -1), sp.term("fee"), -1)
-            if lin_parts(want)[0] == atoms or lin_parts(lin_add(C(0), want, -1))[0] == atoms:
+            if mk_cmpz(">=", want) == c:
                 col = lin_add(lv[0], ("a", ("s", U, r), "value"))
     if col is not None:
         ck.ok("R14.3", construct, "", ret.loc)
